@@ -49,3 +49,5 @@ pub mod hooksys;
 pub mod replay;
 #[cfg(test)]
 pub mod scenarios;
+#[cfg(test)]
+pub mod protoplan;
